@@ -7,6 +7,7 @@
 (* predicates need is logged, so validation is linear.                     *)
 (***************************************************************************)
 EXTENDS BitStream, TLC, Json, IOUtils
+LOCAL INSTANCE SequencesExt
 
 Rec == ndJsonDeserialize(IOEnv.TRACE)
 N == Len(Rec)
@@ -36,10 +37,21 @@ Step == l' = l + 1
 Reset == Is("reset") /\ Step /\ wrs' = <<>> /\ rds' = <<>>
 
 NewW == Is("new_writer") /\ Step /\ UNCHANGED rds
-        /\ wrs' = Put(wrs, Ev.o, NewWriter(Ev.e, Ev.w) @@ [checks |-> Ev.checks, born |-> l])
+        /\ wrs' = Put(wrs, Ev.o, NewWriter(Ev.e, Ev.w) @@ [checks |-> Ev.checks, dn |-> 0, h1 |-> 0, h2 |-> 0])
 
 \* delivered bytes -> stream bits through the layout contract
 Delivered(e, wr) == StreamOfBytes(wr.e, e.nb)
+
+\* Everything the backend received from a writer, in order, is summarized by
+\* its length and two polynomial checksums kept in the writer record (trace
+\* bookkeeping: the state stays small whatever the length of the history).
+P1 == 6700417
+P2 == 4999999
+H1(h, b) == (h * 257 + b + 1) % P1
+H2(h, b) == (h * 257 + b + 1) % P2
+Logged(wr, nb) == [wr EXCEPT !.dn = @ + Len(nb),
+                             !.h1 = FoldLeft(H1, @, nb),
+                             !.h2 = FoldLeft(H2, @, nb)]
 
 \* counting wrappers expose their counter after every call
 CntOK(e, obj) == Has(e, "cnt") => e.cnt = obj.cnt
@@ -61,7 +73,7 @@ WriteBits ==
              THEN WriteBitsStep(wr, Nat8(Ev.v), Ev.n, wr.checks, Ev.res, Ev.ret, Delivered(Ev, wr), wr2)
              ELSE WriteBitsStep(wr, Nat8(Ev.v), Ev.n, wr.checks, Ev.res, Ev.ret, <<>>, wr2)
           /\ WStepOK(Ev, wr2)
-          /\ wrs' = [wrs EXCEPT ![Ev.o] = wr2]
+          /\ wrs' = [wrs EXCEPT ![Ev.o] = Logged(wr2, Ev.nb)]
 
 \* the successor writer after appending A with delivery D (if consistent)
 After(wr, A, D) == [wr EXCEPT !.pend = SubSeq(wr.pend \o A, Len(D) + 1, Len(wr.pend) + Len(A)),
@@ -73,7 +85,7 @@ WriteUnary ==
            wr2 == After(wr, EncUnary(x), D)
        IN  /\ WriteUnaryStep(wr, x, Ev.res, Ev.ret, D, wr2)
            /\ WStepOK(Ev, wr2)
-           /\ wrs' = [wrs EXCEPT ![Ev.o] = wr2]
+           /\ wrs' = [wrs EXCEPT ![Ev.o] = Logged(wr2, Ev.nb)]
 
 WriteCode ==
     /\ Is("write_code") /\ Step /\ UNCHANGED rds /\ LiveW(Ev.o)
@@ -82,7 +94,7 @@ WriteCode ==
        IN  /\ InDomain(c, n)
            /\ WriteCodeStep(wr, c, n, Ev.res, Ev.ret, D, wr2)
            /\ WStepOK(Ev, wr2)
-           /\ wrs' = [wrs EXCEPT ![Ev.o] = wr2]
+           /\ wrs' = [wrs EXCEPT ![Ev.o] = Logged(wr2, Ev.nb)]
 
 WriteBytes ==
     /\ Is("write_bytes") /\ Step /\ UNCHANGED rds /\ LiveW(Ev.o)
@@ -90,22 +102,14 @@ WriteBytes ==
            wr2 == After(wr, StreamOfBytes(wr.e, Ev.bs), D)
        IN  /\ WriteBytesStep(wr, Ev.bs, Ev.res, Ev.ret, D, wr2)
            /\ WStepOK(Ev, wr2)
-           /\ wrs' = [wrs EXCEPT ![Ev.o] = wr2]
+           /\ wrs' = [wrs EXCEPT ![Ev.o] = Logged(wr2, Ev.nb)]
 
 Flush ==
     /\ Is("flush") /\ Step /\ UNCHANGED rds /\ LiveW(Ev.o)
     /\ LET wr == wrs[Ev.o]  wr2 == [wr EXCEPT !.pend = <<>>]
        IN  /\ FlushStep(wr, Ev.res, Ev.ret, Delivered(Ev, wr), wr2)
            /\ WStepOK(Ev, wr2)
-           /\ wrs' = [wrs EXCEPT ![Ev.o] = wr2]
-
-\* everything the backend received from this writer, in order
-RECURSIVE AllNb(_, _, _)
-AllNb(o, i, acc) ==
-    IF i > l THEN acc
-    ELSE LET e == Rec[i]
-             mine == (Has(e, "nb") /\ ((Has(e, "ow") /\ e.ow = o) \/ (~Has(e, "ow") /\ Has(e, "o") /\ e.o = o)))
-         IN  AllNb(o, i + 1, IF mine THEN acc \o e.nb ELSE acc)
+           /\ wrs' = [wrs EXCEPT ![Ev.o] = Logged(wr2, Ev.nb)]
 
 AllZero(s) == \A i \in 1..Len(s) : s[i] = 0
 
@@ -115,11 +119,12 @@ AllZero(s) == \A i \in 1..Len(s) : s[i] = 0
 Close ==
     /\ Is("close") /\ Step /\ UNCHANGED rds /\ LiveW(Ev.o)
     /\ LET wr == wrs[Ev.o]  wr2 == [wr EXCEPT !.pend = <<>>, !.dead = TRUE]
-           all == AllNb(Ev.o, wr.born, <<>>)
+           wl == Logged(wr, Ev.nb)
        IN  /\ CloseStep(wr, Ev.res, Delivered(Ev, wr), [wr EXCEPT !.pend = <<>>])
-           /\ Len(all) <= Len(Ev.image)
-           /\ SubSeq(Ev.image, 1, Len(all)) = all
-           /\ AllZero(SubSeq(Ev.image, Len(all) + 1, Len(Ev.image)))
+           /\ wl.dn <= Len(Ev.image)
+           /\ FoldLeft(H1, 0, SubSeq(Ev.image, 1, wl.dn)) = wl.h1
+           /\ FoldLeft(H2, 0, SubSeq(Ev.image, 1, wl.dn)) = wl.h2
+           /\ AllZero(SubSeq(Ev.image, wl.dn + 1, Len(Ev.image)))
            /\ wrs' = [wrs EXCEPT ![Ev.o] = wr2]
 
 \* ------------------------------------------------------------------ readers
@@ -203,6 +208,7 @@ Clone == Is("clone") /\ Step /\ UNCHANGED wrs /\ Ev.o \in DOMAIN rds
          /\ rds' = Put(rds, Ev.o2, rds[Ev.o])
 
 DropR == Is("drop_reader") /\ Step /\ UNCHANGED wrs /\ rds' = Del(rds, Ev.o)
+DropW == Is("drop_writer") /\ Step /\ UNCHANGED rds /\ wrs' = Del(wrs, Ev.o)
 
 Copy ==
     /\ Is("copy") /\ Step /\ LiveR(Ev.o) /\ LiveW(Ev.ow)
@@ -216,11 +222,17 @@ Copy ==
            /\ RStepOK(Ev, rd2)
            /\ (ok /\ Has(Ev, "wcnt")) => Ev.wcnt = wr2.cnt
            /\ rds' = [rds EXCEPT ![Ev.o] = rd2]
-           /\ wrs' = [wrs EXCEPT ![Ev.ow] = wr2]
+           /\ wrs' = [wrs EXCEPT ![Ev.ow] = Logged(wr2, Ev.nb)]
 
-Next == \/ Reset \/ NewW \/ WriteBits \/ WriteUnary \/ WriteCode \/ WriteBytes \/ Flush \/ Close
+\* length functions (any variant, any dispatch path) equal the closed-form length
+LenEv ==
+    /\ Is("len") /\ Step /\ UNCHANGED <<wrs, rds>>
+    /\ LET c == CodeOf(Ev)  n == Nat8(Ev.v)
+       IN  InDomain(c, n) /\ Ev.ret = CLen(c, n)
+
+Next == \/ LenEv \/ Reset \/ NewW \/ WriteBits \/ WriteUnary \/ WriteCode \/ WriteBytes \/ Flush \/ Close
         \/ NewR \/ ReadBits \/ PeekBits \/ SkipAfterPeek \/ SkipBits \/ ReadUnary \/ ReadCode
-        \/ ReadBytes \/ SetBitPos \/ Clone \/ DropR \/ Copy
+        \/ ReadBytes \/ SetBitPos \/ Clone \/ DropR \/ DropW \/ Copy
 
 Spec == Init /\ [][Next]_vars
 
